@@ -57,7 +57,7 @@ CLAIMED = {
   "Anchors are found structurally (function reaching WriteData, goroutine calling it, its channel). No model checking of the writer/main interleavings; the token argument is an inductive invariant checked by local rules only.",
   "protocol invariants by dominance/must-pass-through on go/ssa + symbolic leaf comparison of offsets + bool-correlated definite assignment"),
  "C06": ("other",
-  "Decides, for every path of each of the 17 stateful kernels and all 41 wrappers, that what is carried between timesteps comes from and goes back to the state vector: every value carried around the time loop (SSA header phi or buffer allocated outside the loop and read before written) that influences outputs is initialised from a STATE argument and reaches a returned state; a state the kernel evolves is not returned unevolved; wrappers read state k into kernel argument nInputs+k and write the kernel's k-th state result back to position k (or extract→kernel→pack in matching order); the two custom pack/extract pairs store the contents of every component and read it at the same symbolic offset; where a kernel hands the run to another catalogued kernel, the caller state passed as the callee's state k is the state the callee's evolved state k is returned as; in kernels with one time loop no value computed inside the loop that influences outputs or states is derived from the length of the series (run-length independence); successive counting loops that rewrite a slice-typed state buffer start at 0 or exactly where the previous one ended, as linear forms (found and fixed the lag buffer refill for calls shorter than the lag). This found six genuine defects (three repaired, two recorded as known findings needing new state variables). Numerical equality of split and unsplit runs is NOT decided. R06.7 (tool/c06refill.go) judges the once-per-call rewrites of slice-typed state buffers as a chain of events — counting loops, copy calls (windows of equal length), calls of helpers handed the buffer directly or inside a wrapping struct, translated through the call's arguments — each starting at 0 or where the previous one ended, and a shift within the buffer keeping the tail of the range rebuilt; writes through helpers, copy and wrapping structs make a vector carried memory (R06.1), and a working copy of a state buffer has to be handed back (R06.2). R06.8: a state clamped on entry (math.Min/Max against a non-constant bound) while the loop holds the same carried variable against a different bound and never against that one is reported.",
+  "Decides, for every path of each of the 17 stateful kernels and all 41 wrappers, that what is carried between timesteps comes from and goes back to the state vector: every value carried around the time loop (SSA header phi or buffer allocated outside the loop and read before written) that influences outputs is initialised from a STATE argument and reaches a returned state; a state the kernel evolves is not returned unevolved; wrappers read state k into kernel argument nInputs+k and write the kernel's k-th state result back to position k (or extract→kernel→pack in matching order); the two custom pack/extract pairs store the contents of every component and read it at the same symbolic offset; where a kernel hands the run to another catalogued kernel, the caller state passed as the callee's state k is the state the callee's evolved state k is returned as; in kernels with one time loop no value computed inside the loop that influences outputs or states is derived from the length of the series (run-length independence); successive counting loops that rewrite a slice-typed state buffer start at 0 or exactly where the previous one ended, as linear forms (found and fixed the lag buffer refill for calls shorter than the lag). This found six genuine defects (three repaired, two recorded as known findings needing new state variables). Numerical equality of split and unsplit runs is NOT decided. R06.7 (tool/c06refill.go) judges the once-per-call rewrites of slice-typed state buffers as a chain of events — counting loops, copy calls (windows of equal length), calls of helpers handed the buffer directly or inside a wrapping struct, translated through the call's arguments — each starting at 0 or where the previous one ended, and a shift within the buffer keeping the tail of the range rebuilt; writes through helpers, copy and wrapping structs make a vector carried memory (R06.1), and a working copy of a state buffer has to be handed back (R06.2). R06.8: a state clamped on entry (math.Min/Max against a non-constant bound) while the loop holds the same carried variable against a different bound and never against that one is reported. R06.9: on every return the value returned for each state depends on a state argument (or that argument was consumed on the way). Float fields of a local struct that the loop writes and reads are carried values like loop-header phis.",
   "DESIGN.md section 2, C06",
   "One symbol-wide exception (storageRouting:qi, solver warm start, within the property's stated tolerance). Time loops are recognised as outermost loops bounded by a series length; control influence is approximated by branch regions.",
   "loop-carried-value (SSA phi / memory) provenance analysis + symbolic layout comparison of pack/extract"),
@@ -67,7 +67,7 @@ CLAIMED = {
   "The generators are the oracle and are executed (generator code only; no model, array or I/O code runs). OW-SPEC parsing in the checker mirrors ow-specgen's preprocessing and regular expression.",
   "regenerate-and-diff translation validation + AST/SSA comparison of wrappers with parsed specs"),
  "C01": ("other",
-  "Decides the shape of the index algebra for every element type and both back-ends: a unit-typed abstract interpretation (S storage cells, R allocated index, V view index; Start:S, Offset:S/R, Step:R/V, OffsetStep:S/V, loc:V) of every store to the stride fields, every index into the backing store and the result of Index, with helper functions analysed from their bodies; Slice shares the receiver's storage; every element access goes through Index(loc) of the same receiver; a view object holds no second element buffer; an operation on a view cut with a step vector is never given a step from that same vector (a step is applied once); Set1 builds its index the way Get1 does (found and fixed: through a 1xN view Set1 wrote k rows further down, outside the view). A stride-composition formula that is wrong for nested stepped slices has inconsistent units and is reported (this found the SliceInto defect, now fixed). Bounds and arithmetic beyond dimensional consistency are NOT decided.",
+  "Decides the shape of the index algebra for every element type and both back-ends: a unit-typed abstract interpretation (S storage cells, R allocated index, V view index; Start:S, Offset:S/R, Step:R/V, OffsetStep:S/V, loc:V) of every store to the stride fields, every index into the backing store and the result of Index, with helper functions analysed from their bodies; Slice shares the receiver's storage; every element access goes through Index(loc) of the same receiver; a view object holds no second element buffer; an operation on a view cut with a step vector is never given a step from that same vector (a step is applied once); Set1 builds its index the way Get1 does (found and fixed: through a 1xN view Set1 wrote k rows further down, outside the view). A stride-composition formula that is wrong for nested stepped slices has inconsistent units and is reported (this found the SliceInto defect, now fixed). Bounds and arithmetic beyond dimensional consistency are NOT decided. R01.6 also judges element accesses of a view cut with a step vector: the index is never scaled by that step again.",
   "DESIGN.md section 2, C01",
   "Dims/OriginalDims are untyped; literals and lengths are polymorphic; a wrong constant factor would pass. In-bounds-ness of loc/dims/step is assumed.",
   "dimensional (unit) abstract interpretation over go/ssa + storage-sharing and addressing-path checks"),
@@ -82,12 +82,12 @@ CLAIMED = {
   "No length information exists for *[1<<30]T, so buffer bounds cannot be decided; in-bounds loc is assumed. cgo-generated code is not modelled.",
   "sibling rule-set agreement + who-may-convert rule for unsafe.Pointer + dominator-based call-protocol check"),
  "C04": ("other",
-  "Structural necessary conditions of cell independence, decided on each of the 41 generated wrappers and their kernels: inputs and parameter views are never written (interprocedural effect summaries incl. Unroll aliases and closure captures); every write to states/outputs goes through a view restricted to the goroutine's own cell (pos[CELL]==i, size[CELL]==1, vectors allocated per goroutine); every broadcast `i % n` uses the extent of the array actually indexed; table parameters are cut to the cell's own length; kernel arguments are the spec's inputs/params/outputs in order; no slice aliasing a shared array is grown with append; no package-level storage is written on the per-cell path (interprocedural, through helpers and slices of global arrays); the shared state array of models with a custom init function is allocated with the maximum of the cells' state-vector lengths as row width (found and fixed: rows were sized from cell 0, so N-cell GR4J/Lag runs with growing X4/timeLag panicked). Equality of values with single-cell runs is NOT established directly. Also decided: every cell is run once with its own index — the per-cell body's index parameter is the counter of the loop that starts the goroutines (from 0, step 1, up to the cell extent of the states/outputs array), through the goroutine's argument and through a spawning helper if Run delegates the fan-out (R04.9); handing the address of a package-level variable to a callee counts as writing it.",
+  "Structural necessary conditions of cell independence, decided on each of the 41 generated wrappers and their kernels: inputs and parameter views are never written (interprocedural effect summaries incl. Unroll aliases and closure captures); every write to states/outputs goes through a view restricted to the goroutine's own cell (pos[CELL]==i, size[CELL]==1, vectors allocated per goroutine); every broadcast `i % n` uses the extent of the array actually indexed; table parameters are cut to the cell's own length; kernel arguments are the spec's inputs/params/outputs in order; no slice aliasing a shared array is grown with append; no package-level storage is written on the per-cell path (interprocedural, through helpers and slices of global arrays); the shared state array of models with a custom init function is allocated with the maximum of the cells' state-vector lengths as row width (found and fixed: rows were sized from cell 0, so N-cell GR4J/Lag runs with growing X4/timeLag panicked). Equality of values with single-cell runs is NOT established directly. Also decided: every cell is run once with its own index — the per-cell body's index parameter is the counter of the loop that starts the goroutines (from 0, step 1, up to the cell extent of the states/outputs array), through the goroutine's argument and through a spawning helper if Run delegates the fan-out (R04.9); handing the address of a package-level variable to a callee counts as writing it. R04.10: nothing that reaches outputs, states or control derives from len() of a slice-typed state row (sized for the widest cell).",
   "DESIGN.md section 2, C04",
   "ND view methods (Slice/Reshape/MustReshape/ReshapeFast) are taken to share storage (checked separately by C01/C02). Row count of pack-function results proven only for constant extents. ApplyParameters row-block arithmetic not decided.",
   "effect summaries + reaching-store evaluation of index vectors on go/ssa, per generated wrapper"),
  "C05": ("other",
-  "Goroutine confinement and counted join for all 43 go statements in the module: captured variables are never assigned in the goroutine nor by the spawner once it may run; shared index vectors are never written (also not through Apply's loc); shared arrays are written only through per-cell views; every goroutine path signals exactly once and the spawner's returns are dominated by a receive loop with the same count; no function reachable from a cell goroutine writes package-level storage; nothing reachable from a cell goroutine writes through Run's inputs or a parameter view (shared by the cells whenever they repeat cyclically); no read method of any array type writes through its receiver (elements, stride/shape metadata or a scratch field). No schedule is explored; the claim is absence of shared mutable locations, from which schedule independence follows. Also decided: each cell goroutine is given its own cell index (R05.9, as R04.9 without the bound clause); a go statement in a spawning helper shared by the wrappers is judged once, the variables captured by each wrapper's per-cell body at the call; f(&global) — e.g. atomic.AddInt32 — counts as a write of the global.",
+  "Goroutine confinement and counted join for all 43 go statements in the module: captured variables are never assigned in the goroutine nor by the spawner once it may run; shared index vectors are never written (also not through Apply's loc); shared arrays are written only through per-cell views; every goroutine path signals exactly once and the spawner's returns are dominated by a receive loop with the same count; no function reachable from a cell goroutine writes package-level storage; nothing reachable from a cell goroutine writes through Run's inputs or a parameter view (shared by the cells whenever they repeat cyclically); no read method of any array type writes through its receiver (elements, stride/shape metadata or a scratch field). No schedule is explored; the claim is absence of shared mutable locations, from which schedule independence follows. Also decided: each cell goroutine is given its own cell index (R05.9, as R04.9 without the bound clause); a go statement in a spawning helper shared by the wrappers is judged once, the variables captured by each wrapper's per-cell body at the call; f(&global) — e.g. atomic.AddInt32 — counts as a write of the global. R05.2 accepts a sync.WaitGroup join and an in-flight limit whose receives add up to the number of goroutines started.",
   "DESIGN.md section 2, C05",
   "Does not decide the writer-vs-main access to modelReference.Generations (token argument, see C07). Pointer arguments of distinct goroutines assumed distinct. No happens-before reasoning beyond the done-channel join.",
   "escape/confinement analysis of go closures + must-pass-through send/receive join check on go/ssa CFGs"),
